@@ -11,10 +11,13 @@ KNOWN = VERIF / "known_findings.json"
 
 
 def load_known() -> list[dict]:
-    if not KNOWN.exists():
-        return []
-    data = json.loads(KNOWN.read_text())
-    return [f for f in data.get("findings", []) if f.get("status") == "known"]
+    out: list[dict] = []
+    files = [KNOWN] if KNOWN.exists() else []
+    files += sorted((VERIF / "known_findings.d").glob("*.json")) if (VERIF / "known_findings.d").is_dir() else []
+    for p in files:
+        data = json.loads(p.read_text())
+        out += [f for f in data.get("findings", []) if f.get("status") == "known"]
+    return out
 
 
 class Report:
